@@ -16,7 +16,7 @@ EXPLANATION = (
     "names is compared first, matches() answers false without comparing only for positions outside [0, len - len(old side)] - an empty "
     "old side at the very end of the file included - and compares exactly the old side; (R6) a hunk's prefix / suffix "
     "context counts are counted from the line markers while the hunk is read (one increment per ' ' line, suffix back to 0 at every "
-    "changed line), not inferred from line contents. Not decided: parsing of every header dialect, line "
+    "changed line), not inferred from line contents. (R8) the offset recorded for a hunk is measured against the side that is matched, (R9) the quoted form of a name is read back byte for byte, (R10) under -R every choice between an old and a new thing takes the other one. Not decided: parsing of every header dialect, line "
     "terminators and the no-newline marker, equality of line contents, and '-0,0' hunks against an existing non-empty file (taken for a "
     "creation, refused) - listed in DESIGN §8.9."
 )
